@@ -114,7 +114,7 @@ int main(int argc, char** argv) {
 #endif
   bool ctl = a.mode == "ctl";
   unsigned maxT = std::min(galois::substrate::getThreadPool().getMaxThreads(), ctl ? 4u : (a.thorough ? 16u : 8u));
-  int progs = ctl ? (a.thorough ? 60 : 10) : (a.thorough ? 30 : 6);
+  int progs = ctl ? (a.thorough ? 60 : 10) : (a.thorough ? 12 : 6);   // (four variants, large programs of 2600-3800 items: the free-running logs are what limits the thorough tier)
   int runs = ctl ? 5 : 4;
   for (int p = 0; p < progs; ++p) {
     uint64_t ps = rng.next();
